@@ -49,6 +49,7 @@ Act(sym) ==
     [] sym = "EFL2" -> [op |-> "end_fl", acct |-> "A2"]
     [] sym = "EFL3" -> [op |-> "end_fl", acct |-> "A3"]
     [] sym = "EFL1" -> [op |-> "end_fl", acct |-> "A1"]
+    [] sym = "EFL1X2" -> [op |-> "end_fl", acct |-> "A1", extra_rem |-> <<"A2">>]    \* another account's end that merely mentions A2
     [] sym = "CSFL2" -> [op |-> "start_fl", acct |-> "A2", end_index |-> 2, cpi |-> TRUE]
     [] sym = "CEFL2" -> [op |-> "end_fl", acct |-> "A2", cpi |-> TRUE]
     [] sym = "BIGB2" -> [op |-> "borrow", acct |-> "A2", bank |-> "B1", amount |-> BOfStr("4600000000")]
@@ -86,7 +87,7 @@ S0 == [ok |-> TRUE, recv |-> {}, fl2 |-> FALSE, fl3 |-> FALSE, nW |-> [a \in Rec
 Fail(s) == [s EXCEPT !.ok = FALSE]
 Step(L, i, s) ==
   LET sym == L[i] IN
-  CASE sym \in {"CB", "JUP", "UNK", "DEP1", "EFL1"} -> s
+  CASE sym \in {"CB", "JUP", "UNK", "DEP1", "EFL1", "EFL1X2"} -> s
     [] sym = "INITREC" -> IF s.rec6 THEN Fail(s) ELSE [s EXCEPT !.rec6 = TRUE]
     [] sym \in {"START3", "START4"} ->
          LET a == SymAcct(sym) IN
